@@ -5646,14 +5646,20 @@ func (t *Terminal) Loop() error {
 					t.track = trackCurrent
 				}
 				req(reqInfo)
-			case actShowHeader:
-				t.headerVisible = true
-				req(reqList, reqInfo, reqPrompt, reqHeader)
-			case actHideHeader:
-				t.headerVisible = false
-				req(reqList, reqInfo, reqPrompt, reqHeader)
-			case actToggleHeader:
-				t.headerVisible = !t.headerVisible
+			case actShowHeader, actHideHeader, actToggleHeader:
+				visible := t.headerVisible
+				switch a.t {
+				case actShowHeader:
+					t.headerVisible = true
+				case actHideHeader:
+					t.headerVisible = false
+				case actToggleHeader:
+					t.headerVisible = !t.headerVisible
+				}
+				if visible != t.headerVisible {
+					// The rows of the list window change their roles
+					t.forceRerenderList()
+				}
 				req(reqList, reqInfo, reqPrompt, reqHeader)
 			case actToggleWrap:
 				t.wrap = !t.wrap
